@@ -271,7 +271,7 @@ class DiskLayout:
     reader), the tool's own reader (C07), granule accounting (C15).
     """
     name = "disk_layout"
-    props = ("C07", "C08", "C15", "C13")
+    props = ("C07", "C08", "C15", "C13", "C09")
     seed = 1
 
     def cells(self, tier):
@@ -302,8 +302,11 @@ class DiskLayout:
                 for kind in (("ML",) if tier == "quick" else ("ML", "BASIC", "ASCII")):
                     out.append({"id": "foreign/%s/len%d/%s" % (kind, L, order), "k": "foreign", "kind": kind, "len": L, "order": order,
                                 "bounded": "foreign image, %s %d bytes, chain order %s" % (kind, L, order)})
-        for h in ("small-files", "large-files", "mixed", "huge-ml", "huge-basic", "huge-ascii", "ten-thirteen", "fourteen-nine"):
+        for h in ("small-files", "large-files", "mixed", "huge-ml", "huge-basic", "huge-ascii", "ten-thirteen", "fourteen-nine", "reopen-link-to-0"):
             out.append({"id": "fill/%s" % h, "k": "fill", "shape": h, "bounded": "one concrete history on the default fill order"})
+        for c in out:
+            # only the re-open history belongs to C09 as well
+            c["props"] = ["C07", "C08", "C15", "C13"] + (["C09"] if c.get("shape", "").startswith("reopen") else [])
         return out
 
     def run(self, env, cell):
@@ -370,7 +373,7 @@ class DiskLayout:
             env.ensure("C08:stream", ok, props, sig("stream-content@%d" % j))
         return fs
 
-    def _read_back(self, env, F, image, wants, native, sigpfx, clause="C07:roundtrip"):
+    def _read_back(self, env, F, image, wants, native, sigpfx, clause="C07:roundtrip", props=("C07",)):
         def sig(w):
             return (lambda: "%s:%s" % (sigpfx, w)) if native else None
         try:
@@ -379,18 +382,18 @@ class DiskLayout:
         except Raised as e:
             if e.cls == "VirtualFileValidationError":
                 import re
-                env.fail(clause, ("C07",), sig("reader-raised:%s" % re.sub(r"\d+", "N", e.msg)))
+                env.fail(clause, props, sig("reader-raised:%s" % re.sub(r"\d+", "N", e.msg)))
             else:
                 env.fail("C13:no-internal-error", ("C13", "C07"), sig("reader-escape:%s" % e.cls))
             return
         if len(got) != len(wants):
-            env.fail(clause, ("C07",), sig("file-count=%d,want=%d" % (len(got), len(wants))))
+            env.fail(clause, props, sig("file-count=%d,want=%d" % (len(got), len(wants))))
             return
         for j, (g, w) in enumerate(zip(got, wants)):
             name, ext, ftype, dtype, load, exe, data = w
             gn, ge = F.get(g, "name"), F.get(g, "extension")
             ok = (str(gn).upper().strip() == name.upper()[:8]) and (str(ge).upper().ljust(3) == ext.upper().ljust(3)[:3])
-            env.ensure(clause + ":name", ok, ("C07",), sig("name=%r.%r@%d" % (gn, ge, j)))
+            env.ensure(clause + ":name", ok, props, sig("name=%r.%r@%d" % (gn, ge, j)))
             okf = (F.intval(F.get(g, "type")) == ftype) & (F.intval(F.get(g, "data_type")) == dtype)
             if ftype == 2:
                 la, ea = F.get(g, "load_addr"), F.get(g, "exec_addr")
@@ -398,17 +401,17 @@ class DiskLayout:
                     okf = False
                 else:
                     okf = okf & (F.intval(la) == load) & (F.intval(ea) == exe)
-            env.ensure(clause + ":fields", okf, ("C07",), sig("fields@%d" % j))
+            env.ensure(clause + ":fields", okf, props, sig("fields@%d" % j))
             gd = list(F.get(g, "data"))
             if len(gd) != len(data):
-                env.fail(clause + ":data", ("C07",), sig("data-length=%d,want=%d@%d" % (len(gd), len(data), j)))
+                env.fail(clause + ":data", props, sig("data-length=%d,want=%d@%d" % (len(gd), len(data), j)))
                 continue
             okd = True
             for x, y in zip(gd, data):
                 if x is y:
                     continue
                 okd = okd & (x == y)
-            env.ensure(clause + ":data", okd, ("C07",), sig("data-content@%d" % j))
+            env.ensure(clause + ":data", okd, props, sig("data-content@%d" % j))
 
     def _features(self, image, wants):
         """root-cause features of a cell's image for failure signatures: is some chain physically non-adjacent, is there an
@@ -529,6 +532,10 @@ class DiskLayout:
             sizes = [("ASCII", 65535), ("BASIC", 2301)]
         elif shape == "ten-thirteen":
             sizes = [10 * 2304 - 20, 13 * 2304 - 20, ("ASCII", 2304)]
+        elif shape == "reopen-link-to-0":
+            # a nearly full disk: the fourth file's chain runs from granule 61 into granule 0 (table entry $00 = link to granule 0);
+            # the image is re-opened from its bytes before every addition, as --append does
+            sizes = [28 * 2304 - 20, 28 * 2304 - 20, ("BASIC", 3 * 2304 - 20), 2 * 2304 - 20, 100, ("ASCII", 40)]
         else:
             sizes = [14 * 2304 - 20, ("BASIC", 9 * 2304 - 20), 100]
         files = []
@@ -539,10 +546,13 @@ class DiskLayout:
         objs = [F.coco_file(nm, ft, dt, la, ea, list(da), extension=ext) for (nm, ext, ft, dt, la, ea, da) in files]
         sigpfx = "fill/%s" % shape
         stored = 0
+        accounting_failed = False
         last_good = None
         d = F.new(DSK, "DiskFile")
         free_g, free_s = 68, 72
         for j, o in enumerate(objs):
+            if shape.startswith("reopen") and j > 0:
+                d = F.new(DSK, "DiskFile", buffer=list(F.get(d, "buffer")))
             amble = 10 if files[j][2] == 2 else (0 if files[j][3] == 0xFF else 3)
             need = max(1, -(-(len(files[j][6]) + amble) // 2304))
             fits = need <= free_g and free_s >= 1
@@ -570,20 +580,21 @@ class DiskLayout:
                 used = self._granules_used(last_good)
                 if not (68 - free_g <= used <= 68 - free_g + extra):
                     env.fail("C15:granules-used", ("C15",), (lambda: "%s:used=%d,expected=%d" % (sigpfx, used, 68 - free_g)) if native else None)
-                    return
+                    accounting_failed = True        # (the image is still examined below: what C08 / C07 / C09 say about it)
                 free_g = 68 - used
             else:
                 break
         env.ensure("C15:fits-is-stored", True, ("C15",))
         env.ensure("C15:overfull-fails", True, ("C15",))
-        env.ensure("C15:granules-used", True, ("C15",))
+        if not accounting_failed:
+            env.ensure("C15:granules-used", True, ("C15",))
         # the image at the end of the history is a consistent Disk BASIC image holding exactly the stored files, and lists as them
         # (the image as of the last successful addition: after a refused addition the tool discards the object without writing it --
         # VirtualFile.save_virtual_file raises before write_file --, so the 0x99 allocation marks a refused add_file leaves in the
         # in-memory table never reach a file)
         image = last_good if stored else list(F.get(d, "buffer"))
-        self._check_image(env, image, files[:stored], native, sigpfx, props=("C08", "C07"))
-        self._read_back(env, F, image, files[:stored], native, sigpfx)
+        self._check_image(env, image, files[:stored], native, sigpfx, props=("C08", "C07", "C09"))
+        self._read_back(env, F, image, files[:stored], native, sigpfx, props=("C07", "C09") if shape.startswith("reopen") else ("C07",))
 
 
 LEMMAS.append(DiskLayout())
